@@ -763,7 +763,21 @@ class Machine:
         if r is None:
             return False
         lo, hi = self.rng(st, v)
+        ub = (st.extra.get('ub') or {}).get(repr(v))
+        if ub is not None:
+            hi = min(hi, ub)
         return iv_min(r) <= lo and hi <= iv_max(r)
+
+    def add_ub(self, st, v, bound):
+        """record the fact `v <= bound` for a (possibly multi-symbol) linear value on this path"""
+        if isinstance(v, Int):
+            sg = v.single()
+            if sg and sg[1] == 1:
+                s_, _, c_ = sg
+                st.ranges[s_] = iv_and(st.ranges[s_], ((iv_min(st.ranges[s_]), bound - c_),)) or st.ranges[s_]
+            d = dict(st.extra.get('ub') or {})
+            d[repr(v)] = min(bound, d.get(repr(v), bound))
+            st.extra['ub'] = d
 
     def binop(self, cfg, fr, op, a, b, tys, sp):
         st = cfg.st
@@ -969,6 +983,12 @@ class Machine:
                 ft = frm.get('to') or {}
                 if ft.get('k') == 'array' and isinstance(ft.get('len'), int):
                     return Slice(v, None, Int.const(ft['len']))
+                if ft.get('k') == 'array' and isinstance(ft.get('len'), str) and ft['len'].isidentifier():
+                    nm = 'const:%s' % ft['len']
+                    if nm not in st.ranges:
+                        st.ranges[nm] = ((0, 1 << 40),)
+                        st.symty[nm] = 'usize'
+                    return Slice(v, None, Int.sym(nm))
             if isinstance(v, Atom):
                 ft = frm.get('to') or {}
                 if ft.get('k') == 'array' and isinstance(ft.get('len'), int):
